@@ -169,6 +169,9 @@ class RepoWorld(World):
             raise
 
     def with_value(self, ex, cm, body_thunk):
+        for h in getattr(self, "with_value_hooks", []):
+            if h(ex, cm, body_thunk):
+                return True
         if isinstance(cm, VRef) and cm.sort in ("Opaque", "Emitter"):
             # assumption: library context managers do not swallow exceptions of their body
             ex.assumptions_used.add("opaque library context managers (nullcontext, const-folder scopes) are exception-transparent")
